@@ -462,7 +462,55 @@ func (k *scoreKit) compareScore(rule string, fn *types.Func, ref []refLeaf) (hit
 	all := true
 	usedRef := make([]bool, len(ref))
 	seenHit := map[string]bool{}
+	// atoms of the reference partition (either polarity)
+	refAtoms := map[string]*ir.Term{}
+	for _, r := range ref {
+		var rg []*ir.Term
+		for _, g := range r.guards {
+			rg = append(rg, stripKF(g))
+		}
+		for _, g := range k.closeGuards(rg) {
+			refAtoms[g.Key()] = g
+			refAtoms[ir.NotCond(g).Key()] = ir.NotCond(g)
+		}
+	}
+	reportedCond := map[string]bool{}
 	for i, p := range prog {
+		// a path condition the reference does not know: report the closest reference condition and
+		// do not pair this path with reference branches (the pairing would be arbitrary)
+		unknown := false
+		for _, g := range p.guards {
+			if refAtoms[g.Key()] != nil {
+				continue
+			}
+			unknown = true
+			usedAll := true
+			_ = usedAll
+			if reportedCond[g.Key()] {
+				continue
+			}
+			reportedCond[g.Key()] = true
+			bestA, bestB := g.Pretty(), "<no condition of this form in the reference equation>"
+			best := -1
+			for _, ra := range refAtoms {
+				if ra.Op != g.Op || ra.Str != g.Str {
+					continue
+				}
+				a, b := ir.Diff(g, ra)
+				if best < 0 || len(a)+len(b) < best {
+					best = len(a) + len(b)
+					bestA, bestB = a, b
+				}
+			}
+			c.Fail(rule, fmt.Sprintf("%s condition", name), k.e.P.Pos(p.raw.Pos), fmt.Sprintf("a branch condition differs from the reference equation: found %s, expected %s", clip(bestA), clip(bestB)))
+			all = false
+		}
+		if unknown {
+			for j := range ref {
+				usedRef[j] = true // do not additionally report reference branches as missing
+			}
+			continue
+		}
 		matched := false
 		for j, r := range ref {
 			var rg []*ir.Term
